@@ -171,8 +171,19 @@ func c09Build(seed uint64, isCond bool) *c09Target {
 		switch r.Intn(3) {
 		case 0:
 			tr := c09Gen.Gen(r)
-			ex = tr.BuildStack()
-			t.desc = "Cond(kw = " + tr.Brief() + ")"
+			st := tr.BuildStack()
+			ex = st
+			form := ""
+			switch r.Intn(4) {
+			case 1:
+				ex, form = AStack(st), "{as an alias value}"
+			case 2:
+				a := AStack(st)
+				ex, form = &a, "{as a pointer to an alias}"
+			case 3:
+				ex, form = XStack(st), "{as an alias with its own String}"
+			}
+			t.desc = "Cond(kw = " + tr.Brief() + form + ")"
 		case 1:
 			ex = 42
 			t.desc = "Cond(kw = 42)"
@@ -521,9 +532,14 @@ func c09One(c *core.Ctx, seed uint64, isCond bool, seq []CallSpec) {
 			return
 		}
 		if isCond {
+			if len(opts.SkipRoot) > 0 {
+				t.cd.SetErr(nil) // the sequence itself called SetErr (a documented exception): an expression is refused while an error is pending
+			}
 			t.cd.SetKeyword("changed")
-			if t.cd.Keyword() != "changed" {
-				c.Violatef("restore:"+kindTag+":immutable", desc, "SetKeyword had no effect after clearing read-only")
+			t.cd.SetOperator(stackage.Ne)
+			t.cd.SetExpression("changed-value")
+			if t.cd.Keyword() != "changed" || t.cd.Operator() != stackage.Ne || t.cd.Expression() != "changed-value" {
+				c.Violatef("restore:"+kindTag+":immutable", desc, "after clearing read-only SetKeyword/SetOperator/SetExpression gave %q %v %s", t.cd.Keyword(), t.cd.Operator(), Show(t.cd.Expression()))
 				return
 			}
 		} else {
